@@ -71,7 +71,9 @@ func vDrawRef(prefix string) vRef {
 	return r
 }
 
-func vNewAdoptionScenario(strategyKind int) *vAdoptionScenario { return vNewScenario(strategyKind, false) }
+func vNewAdoptionScenario(strategyKind int) *vAdoptionScenario {
+	return vNewScenario(strategyKind, false)
+}
 
 // vNewScenario: with ownershipOnly the draws that only matter to the adoption decision (revision annotation, package
 // label, forced adoption, collision protection) are fixed.
